@@ -5,7 +5,7 @@ import sys, os, time
 sys.path.insert(0, os.path.dirname(os.path.abspath(__file__)))
 import corr, gen2
 from gen import G
-groups = sys.argv[1].split(",")
+groups = sys.argv[1].split(";") if "[" in sys.argv[1] else sys.argv[1].split(",")
 n = int(sys.argv[2]) if len(sys.argv) > 2 else 30
 seed = int(sys.argv[3]) if len(sys.argv) > 3 else 1
 ops = sys.argv[4].split(",") if len(sys.argv) > 4 else list(corr.OPSIG)
